@@ -54,7 +54,8 @@ func init() {
 	sort.Strings(ZeroGroups)
 }
 
-// PathPool is built to collide: same last elements, std names, keywords, digits, unicode.
+// PathPool is built to collide: same last elements, std names, keywords, digits, unicode,
+// symbols followed by digits.
 var PathPool = []string{
 	"fmt", "os", "io", "strings", "math/rand", "crypto/rand", "text/template", "html/template",
 	"net/http", "net/http/pprof", "runtime/pprof", "go/scanner", "text/scanner", "unsafe",
@@ -63,6 +64,11 @@ var PathPool = []string{
 	"a/123", "a/9x", "a/1/", "a.b/c-d", "a.b/C.D", "github.com/foo/bar.v2", "gopkg.in/yaml.v3",
 	"a/世界", "a/é", "a/KK", "a/İx", "x.y/pkg", "a/-", "a//", "/", "a.b/x1", "a.b/x", "c.d/x", "e.f/x",
 	"x.y/d1", "x.y/pkg_d", "a/b/c/d/e/f",
+	// last elements that begin with a non-alphanumeric symbol directly followed by a digit: the
+	// guessed alias must drop the leading digits AFTER the symbols have been removed ("_3rd" ->
+	// "3rd" -> "rd", ".2fa" -> "fa", "-9lives" -> "lives", "é9x" -> "9x" -> "x" which competes
+	// with a.b/x and a/9x, "9_" and "__" -> "" -> "pkg")
+	"a.b/_3rd", "x/.2fa", "a/-9lives", "a/é9x", "a.b/9_", "x.y/__",
 }
 
 var identPool = []string{"a", "b", "x", "y", "foo", "Bar", "T", "err", "i", "_", "ctx", "v1"}
